@@ -175,8 +175,19 @@ def qr(prog, ctx):
         rest_body = {'k': 'Compound', 'body': [s_ for s_ in body if s_ not in inner]}
         live, dn = osx.exec_loop_body(rest_body, [st])
         early = [o_ for o_ in dn if o_.kind == 'continue']
-        if [o_ for o_ in dn if o_.kind not in ('continue',)] or len(live) > 1 or (not live and not early):
-            raise Undecided('the sweep body branches, breaks or exits')
+        if [o_ for o_ in dn if o_.kind not in ('continue',)]:
+            raise Undecided('the sweep body breaks or exits')
+        # a path that reaches the end of the sweep without having reduced the working sub-matrix is cut short just like an early continue
+        class _P:
+            pass
+        for lv_ in list(live):
+            if lv_.env.get(sid) == Sin or lv_.env.get(rid) == Rin:
+                p_ = _P()
+                p_.state = lv_
+                early.append(p_)
+                live.remove(lv_)
+        if len(live) > 1 or (not live and not early):
+            raise Undecided('the sweep body branches')
         for o_ in early:
             if o_.state.env.get(sid) == Sin or o_.state.env.get(rid) == Rin:
                 ctx.violated(R, 'QR:submatrix', fn, 'under [%s] the sweep is cut short: the working sub-matrix is not reduced by its first row and column (and R/Q are not '
